@@ -648,7 +648,7 @@ func (g *Gen) hostile(kind string, typ uint8, at int) {
 	g.finalize([]*ptx{p}, nil)
 }
 
-func (g *Gen) finalize(batch []*ptx, overlap []string) {
+func (g *Gen) finalize(batch []*ptx, overlap []string) string {
 	var txs []string
 	for _, p := range batch {
 		txs = append(txs, p.hash)
@@ -687,6 +687,99 @@ func (g *Gen) finalize(batch []*ptx, overlap []string) {
 	if class != "ok" {
 		g.se.c.Count("snapshot-" + class)
 	}
+	return class
+}
+
+// ---- capacity: totals driven up to and across the capacity by accumulation -----------------------
+
+func whole(n int64) *big.Int { return new(big.Int).Mul(big.NewInt(n), e8) }
+
+func (g *Gen) depositOf(asset string, amt *big.Int) draft {
+	g.depN++
+	akey := "0xkey" + asset[:6]
+	if asset == g.assets[0] {
+		akey = common.XINAsset.AssetKey
+	}
+	return draft{kind: "deposit", asset: asset, sign: []string{g.custSeed},
+		inputs: []fin.InSpec{{Kind: "deposit", Chain: hexH(common.EthereumAssetId), AKey: akey, TxID: fmt.Sprintf("0xdep%d", g.depN), DIndex: uint64(g.depN), Amount: units(amt)}},
+		shape:  []shapeOut{{common.OutputTypeScript, amt}}}
+}
+
+func (g *Gen) mintOf(amt *big.Int) draft {
+	g.mintN++
+	return draft{kind: "mint", asset: g.assets[0], sign: []string{g.seeds[0]},
+		inputs: []fin.InSpec{{Kind: "mint", Batch: g.mintN, Amount: units(amt)}},
+		shape:  []shapeOut{{common.OutputTypeScript, amt}}}
+}
+
+// admitAll validates every draft against the CURRENT recorded total (none is finalized in between)
+func (g *Gen) admitAll(ds []draft) []*ptx {
+	var ps []*ptx
+	for _, d := range ds {
+		if p := g.admit(d); p != nil {
+			ps = append(ps, p)
+		} else {
+			g.se.c.Count("capacity:refused-by-validate")
+		}
+	}
+	return ps
+}
+
+// together: one snapshot for all; then one by one (the crossing one panics, the rest is counted once)
+func (g *Gen) crossTogether(ps []*ptx, label string) {
+	if len(ps) > 1 {
+		g.se.c.Count("capacity:" + label + ":one-snapshot:" + g.finalize(ps, nil))
+	}
+	g.crossOneByOne(ps, label)
+}
+
+func (g *Gen) crossOneByOne(ps []*ptx, label string) {
+	for _, p := range ps {
+		still := false
+		for _, q := range g.pending {
+			still = still || q == p
+		}
+		if still {
+			g.se.c.Count("capacity:" + label + ":consecutive:" + g.finalize([]*ptx{p}, nil))
+		}
+	}
+}
+
+func capacityHistory(c *vh.Ctx, r *vh.Rand, mode int) {
+	se := &Session{c: c, st: fin.OpenStore()}
+	g := newGen(se, r)
+	btc, eth, sol := hexH(common.BitcoinAssetId), hexH(common.EthereumAssetId), hexH(common.SOLAssetId)
+	j := func(n int64) *big.Int { return new(big.Int).Add(whole(n), big.NewInt(int64(r.Intn(1000)))) }
+	switch mode {
+	case 0:
+		// first-ever deposits of an unrecorded asset (no recorded total to validate against), jointly above 2500 BTC
+		g.crossTogether(g.admitAll([]draft{g.depositOf(btc, j(1400)), g.depositOf(btc, j(1300))}), "first-ever")
+		// recorded asset: three deposits each below the remaining room, crossing together and then one by one
+		g.crossTogether(g.admitAll([]draft{g.depositOf(btc, j(400)), g.depositOf(btc, j(500)), g.depositOf(btc, j(450))}), "recorded")
+		// consecutive snapshots on ETH (5000)
+		g.crossOneByOne(g.admitAll([]draft{g.depositOf(eth, j(1000))}), "eth-base")
+		g.crossOneByOne(g.admitAll([]draft{g.depositOf(eth, j(1500)), g.depositOf(eth, j(1600)), g.depositOf(eth, j(1700))}), "eth")
+		// a single first-ever deposit above the capacity of SOL (60000), then one exactly at the capacity, then one more unit
+		g.crossOneByOne(g.admitAll([]draft{g.depositOf(sol, j(60001))}), "first-ever-single")
+		g.crossOneByOne(g.admitAll([]draft{g.depositOf(sol, whole(60000))}), "exactly-capacity")
+		g.crossOneByOne(g.admitAll([]draft{g.depositOf(sol, big.NewInt(1))}), "above-exact")
+	case 1:
+		// mints crossing the XIN capacity (750000) on top of the genesis allocation
+		var ds []draft
+		for i := 0; i < 4; i++ {
+			ds = append(ds, g.mintOf(j(230000)))
+		}
+		ps := g.admitAll(ds)
+		g.crossOneByOne(ps[:len(ps)/2], "mints")
+		g.crossTogether(ps[len(ps)/2:], "mints")
+	default:
+		// genesis + deposits of XIN, validated up front, crossing 750000
+		g.crossTogether(g.admitAll([]draft{g.depositOf(g.assets[0], j(300000)), g.depositOf(g.assets[0], j(280000)), g.depositOf(g.assets[0], j(260000))}), "genesis+deposits")
+		// and the ledger keeps working afterwards
+		g.snapshot(3)
+	}
+	g.snapshot(2)
+	se.Finish(fmt.Sprintf("capacity-%d", mode))
 }
 
 func (g *Gen) snapshot(size int) {
@@ -789,9 +882,17 @@ func main() {
 	sweep(c, c.Rng.Fork("sweep-a"), []string{"submit", "transfer"}, "sweep-submit-transfer")
 	sweep(c, c.Rng.Fork("sweep-b"), []string{"claim", "pledge"}, "sweep-claim-pledge")
 	sweep(c, c.Rng.Fork("sweep-c"), []string{"deposit", "mint"}, "sweep-deposit-mint")
+	// corpus: totals driven up to and across the capacity (deposits in one / consecutive snapshots, first-ever
+	// deposits, mints, genesis + deposits); the crossing write must leave the total <= capacity and = flow
+	for m := 0; m < 3; m++ {
+		capacityHistory(c, c.Rng.Fork(fmt.Sprintf("cap%d", m)), m)
+	}
 	history(c, c.Rng.Fork("short"), 2, 2, "history-short")
 	history(c, c.Rng.Fork("long"), c.Scale(12, 100), 4, "history-long")
-	n := c.Scale(5, 200)
+	n := c.Scale(4, 200)
+	for i := 0; i < c.Scale(0, 30); i++ {
+		capacityHistory(c, c.Rng.Fork(fmt.Sprintf("capr%d", i)), i%3)
+	}
 	for i := 0; i < n; i++ {
 		history(c, c.Rng.Fork(fmt.Sprintf("h%d", i)), c.Rng.Range(3, 8), 8, "history")
 	}
